@@ -132,7 +132,9 @@ class Env:
         self.hs: list[H] = []
         self.calls = {}              # (ctx, fid) -> n
         self.fkeys = {}              # fid -> (first type, name) it was registered with
+        self.ftypes = {}             # fid -> all types it was registered with
         self.current_rec = None
+        self.plan = None
         self.local = {}              # ctx -> next local counter
         self.current_ctx = None
         self.current_gate = None
@@ -152,6 +154,7 @@ class Env:
         self.calls[(c, fid)] = self.calls.get((c, fid), 0) + 1
         if self.current_rec is not None:
             self.current_rec["in_factory"] = True
+            self.current_rec["fac_types"] = self.ftypes.get(fid, self.current_rec["fac_types"])
         return GenObj(c, fid, k)
 
     def make_factory(self, fid, kind):
@@ -256,6 +259,7 @@ class Env:
                 f = self.make_factory(op["f"], op["kind"])
                 if op["types"]:
                     self.fkeys[op["f"]] = (op["types"][0], op["name"])
+                    self.ftypes[op["f"]] = list(op["types"])
                 kw = {}
                 if op["desc"] is not None:
                     kw["description"] = f"d{op['desc']}"
@@ -272,7 +276,8 @@ class Env:
                 return {"k": "NoneVal"} if v is None else {"k": "Val", "v": val_json(v)}
             if k == "GetBegin":
                 self.current_ctx = h.idx
-                rec = {"gate": anyio.Event(), "done": anyio.Event(), "result": None, "in_factory": False}
+                rec = {"gate": anyio.Event(), "done": anyio.Event(), "result": None, "in_factory": False,
+                       "key": (op["t"], op["name"]), "fac_types": [op["t"]]}
                 self.current_gate = rec["gate"]
                 self.current_rec = rec
                 h.pending[op["tok"]] = rec
@@ -364,9 +369,65 @@ class Env:
             return "default"
         return r.choice(NAMES_OK)
 
+    def make_plan(self, r):
+        """A structured history: build a tree of depth up to 4, enter and leave some leaves, then
+        register resources / factories on inner nodes and look every used pair up from EVERY live
+        context (and from contexts created afterwards)."""
+        plan = [{"op": "New", "p": None}, {"op": "Enter", "c": 0}]
+        parents, depth, live = {0: None}, {0: 0}, [0]
+        n = 1
+        for _ in range(r.choice([2, 3, 4, 5])):
+            p = r.choice([c for c in live if depth[c] < 3])
+            plan += [{"op": "New", "p": p}, {"op": "Enter", "c": n}]
+            parents[n], depth[n] = p, depth[p] + 1
+            live.append(n)
+            n += 1
+        leaves = [c for c in live if c not in parents.values()]
+        for c in r.sample(leaves, r.randrange(0, len(leaves) + 1)):
+            plan += [{"op": "ExitBegin", "c": c, "exc": r.random() < 0.2}, {"op": "ExitEnd", "c": c}]
+            live.remove(c)
+        keys = []
+        for _ in range(r.choice([1, 2, 3])):
+            c = r.choice(live)
+            name = r.choice(NAMES_OK)
+            if r.random() < 0.6:
+                types = r.sample(range(N_CLASSES), r.choice([1, 1, 2]))
+                plan.append({"op": "AddFactory", "c": c, "f": self.next_fid, "kind": r.choice(["FSync", "FAsyncImm"]),
+                             "name": name, "types": types, "single": False, "desc": None})
+                self.next_fid += 1
+            else:
+                types = r.sample(range(N_CLASSES), r.choice([1, 2]))
+                plan.append({"op": "AddResource", "c": c, "v": self.next_static, "vty": types[0], "name": name,
+                             "types": types, "single": False, "desc": None, "cb": None})
+                self.next_static += 1
+            for t in types:
+                self.note_key(t, name)
+                keys.append((t, name))
+            if r.random() < 0.4:
+                plan += [{"op": "New", "p": r.choice(live)}]
+                live_new = n
+                n += 1
+                if r.random() < 0.7:
+                    plan.append({"op": "Enter", "c": live_new})
+                    live.append(live_new)
+        for (t, name) in keys:
+            for c in live:
+                if r.random() < 0.8:
+                    if r.random() < 0.5:
+                        plan.append({"op": "GetNowait", "c": c, "t": t, "name": name, "optional": r.random() < 0.5})
+                    else:
+                        plan.append({"op": "GetBegin", "c": c, "tok": self.next_tok, "t": t, "name": name,
+                                     "optional": r.random() < 0.5})
+                        self.next_tok += 1
+        return plan
+
     def next_op(self):
         r = self.r
         hs = self.hs
+        if self.plan is None:
+            self.plan = self.make_plan(r) if r.random() < 0.35 else []
+        if self.plan:
+            return self.plan.pop(0)
         if not hs:
             return {"op": "New", "p": None}
         h = r.choice(hs)
@@ -399,6 +460,16 @@ class Env:
                 return {"op": "ExitEnd", "c": r.choice(cl).idx}
         if live and r.random() < 0.9:
             h = r.choice(live)
+        infac = [(x, t, rec) for x in hs for t, rec in x.pending.items() if rec["in_factory"]]
+        if infac and r.random() < 0.12:
+            # take, while the factory is running, the pairs its product would be registered under
+            x, t, rec = r.choice(infac)
+            ftypes, fname = rec["fac_types"], rec["key"][1]
+            types = list(ftypes) if r.random() < 0.6 else [rec["key"][0]]
+            v = self.next_static
+            self.next_static += 1
+            return {"op": "AddResource", "c": x.idx, "v": v, "vty": types[0], "name": fname, "types": types,
+                    "single": False, "desc": None, "cb": None}
         pend = self.completable()
         if pend and r.random() < 0.25:
             c, t = r.choice(pend)
